@@ -276,6 +276,8 @@ func (fc *FuncCtx) theoryCall(st *State, bind string, fn *types.Func, recv *Val,
 				t = r.add(in, cst("cpA"))
 			case "AddB":
 				t = r.add(in, cst("cpB"))
+			case "MulByD":
+				t = r.mul(cst("cpD"), in)
 			}
 			if t != nil {
 				fc.writeLoc(st, ol, fc.nameTerm(st, "t", t))
